@@ -432,3 +432,46 @@ func VH_C16_write() {
 	zzverif.Assert(zzverif.EqualBytes(out.calls[len(out.calls)-1].buf, line2), "the same event and configuration always give the same bytes")
 	zzverif.Reach("C16/write")
 }
+
+// C06 (ownership, console path): while ConsoleWriter hands a line to Out, the bytes must not be
+// reachable through the buffer pool (another goroutine's Write would take the same buffer and
+// overwrite the line being written).
+type vConsoleOut struct {
+	aliased bool
+	calls   int
+}
+
+func (o *vConsoleOut) Write(p []byte) (int, error) {
+	o.calls++
+	var got []*bytes.Buffer
+	for i := 0; i < 4; i++ {
+		b := consoleBufPool.Get().(*bytes.Buffer)
+		got = append(got, b)
+		if zzverif.SameBacking(b.Bytes()[:cap(b.Bytes())], p) {
+			o.aliased = true
+		}
+	}
+	for i := len(got) - 1; i >= 0; i-- {
+		consoleBufPool.Put(got[i])
+	}
+	return len(p), nil
+}
+
+func VH_C06_console_pool() {
+	vSetOther()
+	out := &vConsoleOut{}
+	w := vConsole()
+	w.Out = out
+	w.PartsOrder = []string{MessageFieldName}
+	w.FormatMessage = func(i interface{}) string { return "M" }
+	evt := map[string]interface{}{MessageFieldName: "m", "a": "v"}
+	p := vEventBytes(evt)
+	for i := 0; i < 2; i++ {
+		zzverif.DecodesTo(evt, nil)
+		n, err := w.Write(p)
+		zzverif.Assert(err == nil && n == len(p), "ConsoleWriter.Write succeeds")
+	}
+	zzverif.Assert(out.calls == 2, "one write to Out per event")
+	zzverif.Assert(!out.aliased, "the line handed to Out is not reachable through the buffer pool while Out.Write runs")
+	zzverif.Reach("C06/console-pool")
+}
